@@ -258,20 +258,16 @@ impl RegExpBuilder {
 /// Replaces Rust Unicode escape sequences to Python Unicode escape sequences.
 fn replace_unicode_escape_sequences(regexp: String) -> String {
     lazy_static! {
-        static ref FOUR_CHARS_ESCAPE_SEQUENCE: Regex =
-            Regex::new(r"\\u\{([0-9a-f]{1,4})\}").unwrap();
-        static ref FIVE_CHARS_ESCAPE_SEQUENCE: Regex =
-            Regex::new(r"\\u\{([0-9a-f]{5,6})\}").unwrap();
+        // An escaped backslash is matched as well, so that it is never mistaken
+        // for the beginning of an escape sequence, e.g. in `\\u{3}`.
+        static ref ESCAPE_SEQUENCE: Regex =
+            Regex::new(r"\\\\|\\u\{([0-9a-f]{1,6})\}").unwrap();
     }
-    let mut replacement = FOUR_CHARS_ESCAPE_SEQUENCE
-        .replace_all(&regexp, |caps: &Captures| format!("\\u{:0>4}", &caps[1]))
-        .to_string();
-
-    replacement = FIVE_CHARS_ESCAPE_SEQUENCE
-        .replace_all(&replacement, |caps: &Captures| {
-            format!("\\U{:0>8}", &caps[1])
+    ESCAPE_SEQUENCE
+        .replace_all(&regexp, |caps: &Captures| match caps.get(1) {
+            Some(digits) if digits.as_str().len() <= 4 => format!("\\u{:0>4}", digits.as_str()),
+            Some(digits) => format!("\\U{:0>8}", digits.as_str()),
+            None => caps[0].to_string(),
         })
-        .to_string();
-
-    replacement
+        .to_string()
 }
